@@ -434,6 +434,9 @@ int main(void) {
 			if (n > 1 && rc == KSI_OK) rc = KSI_CTX_setAggregatorHmacAlgorithm(ctx, (size_t)atoi(tok[1]));
 			if (n > 2 && rc == KSI_OK) rc = KSI_CTX_setExtenderHmacAlgorithm(ctx, (size_t)atoi(tok[2]));
 			printf("R bnew rc=%d\n", rc);
+		} else if (!strcmp(tok[0], "HMACALG")) {
+			int rc = KSI_CTX_setAggregatorHmacAlgorithm(ctx, (size_t)atoi(tok[1])); if (rc == KSI_OK) rc = KSI_CTX_setExtenderHmacAlgorithm(ctx, (size_t)atoi(tok[2]));
+			printf("R hmacalg rc=%d\n", rc);
 		} else if (!strcmp(tok[0], "HNEW")) {
 			/* blocking services over the HTTP transport (scripted libcurl): HNEW [<aggrUri> <extUri>] */
 			int rc; free_all(); reset_net(); interactive = 1;
